@@ -162,6 +162,8 @@ def check_c17(tier, seed, V):
     os.makedirs(d, exist_ok=True)
     cfg = "Retry.cfg" if tier == "quick" else "Retry_thorough.cfg"
     rs, bs = os.path.join(d, "retry.ndjson"), os.path.join(d, "breaker.ndjson")
+    # the breaker under concurrent callers, as a state machine at the grain of its critical section (design level)
+    outc, stc = tlc_io(V, "BreakerConc.tla", "BreakerConc.cfg", {})
     tlc_io(V, "RetryGen.tla", cfg, {"OUTR": rs, "OUTB": bs})
     nrs, nbs = sum(1 for _ in open(rs)), sum(1 for _ in open(bs))
     res = os.path.join(d, "results.ndjson")
@@ -194,7 +196,9 @@ def check_c17(tier, seed, V):
                    "n concurrent failing callers of one breaker (real goroutines) must be invoked as often as in any sequential order of BreakerRun; "
                    "CalculateBackoff is sampled over configurations x attempt numbers (up to 2e9) and judged by the saturating window operator; acquisition rounds of "
                    "simulated elections are judged by MonitorTrace.tla (jitter 10-100 ms, back-off windows, at most four attempts)",
-           "by_kind": kinds, "acquisition_rounds_observed": rounds, "exhaustive": False}
+           "by_kind": kinds, "acquisition_rounds_observed": rounds, "exhaustive": False,
+           "breaker_concurrency_model": {"module": "BreakerConc.tla", "callers": 6, "thresholds": "1..4", "distinct_states": stc.get("distinct"),
+                                         "invariants": ["C17_NoInvocationWhileOpen", "C17_Linearizable", "C17_OneAtATime"], "liveness": "Terminates"}}
     shutil.rmtree(d, ignore_errors=True)
     return finish(V, "C17", tier, seed, t0, bad, {"how": "python3 tools/verif.py check C17"}, cov,
                   ["CalculateBackoff is judged for Initial >= 0, Max >= Initial, Multiplier >= 1, 0 <= Jitter <= 1 (rational multipliers, ms resolution)",
